@@ -50,6 +50,7 @@ type vProcT struct {
 	defs      map[string]*AppInfo
 	licHandle map[string]string
 	ahs       map[string]*AppHarvest
+	badJSON   int           // requests whose body was not valid JSON (any run, tainted or not)
 	crashed   chan struct{} // closed when the processor goroutine panicked (the real worker would exit 3)
 	tainted   map[string]bool
 }
@@ -106,6 +107,13 @@ func (v *vProcT) Execute(cmd *collector.RpmCmd, cs collector.RpmControls) collec
 		hdr: vCanonHdr(cmd.RequestHeadersMap), payload: vCanonPayload(cmd.Name, data), ch: make(chan collector.RPMResponse, 1)}
 	r.owner = r.run
 	v.mu.Lock()
+	if !json.Valid(data) {
+		if v.tainted[r.run] {
+			vStat("badjson-in-victim-run:" + cmd.Name) // a corrupt message supplied an invalid fragment to its own run
+		} else {
+			v.badJSON++
+		}
+	}
 	if v.tainted[r.run] {
 		r.payload = "*" // a corrupt message was addressed to this run: its own payloads are not compared
 	}
@@ -589,6 +597,7 @@ func vConnectBody(t []string) string {
 func vBuildTxn(run string, t []string) []byte {
 	b := flatbuffers.NewBuilder(0)
 	num := func(s string) []byte { return []byte(s) }
+	badfrag := vKVor(t, "badfrag", "0") == "1" // the agent supplies a syntactically invalid JSON fragment
 	vec := func(key string, start func(*flatbuffers.Builder, int) flatbuffers.UOffsetT) flatbuffers.UOffsetT {
 		s := vKVor(t, key, "")
 		if s == "" || s == "-" {
@@ -597,7 +606,11 @@ func vBuildTxn(run string, t []string) []byte {
 		ids := strings.Split(s, ",")
 		offs := make([]flatbuffers.UOffsetT, len(ids))
 		for i := len(ids) - 1; i >= 0; i-- {
-			offs[i] = protocol.EncodeEvent(b, num(ids[i]))
+			frag := ids[i]
+			if badfrag && key == "ce" {
+				frag = "{" + frag
+			}
+			offs[i] = protocol.EncodeEvent(b, num(frag))
 		}
 		start(b, len(ids))
 		for i := len(ids) - 1; i >= 0; i-- {
@@ -940,7 +953,10 @@ func vProcOp(t []string) string {
 			}
 		}
 		v.mu.Unlock()
-		return fmt.Sprintf("apps=%s runs=%s parked=%d", strings.Join(apps, ","), strings.Join(runs, ","), np)
+		v.mu.Lock()
+		bad := v.badJSON
+		v.mu.Unlock()
+		return fmt.Sprintf("apps=%s runs=%s parked=%d badjson=%d", strings.Join(apps, ","), strings.Join(runs, ","), np, bad)
 	case "cleanexit":
 		outcomes := map[string]string{}
 		def := "200"
@@ -999,7 +1015,10 @@ func vProcOp(t []string) string {
 		}
 		smu.Unlock()
 		vProc = nil
-		return fmt.Sprintf("returned=%d reqs=%s", returned, out)
+		v.mu.Lock()
+		bad := v.badJSON
+		v.mu.Unlock()
+		return fmt.Sprintf("returned=%d badjson=%d reqs=%s", returned, bad, out)
 	}
 	return "bad-op"
 }
